@@ -9,6 +9,8 @@ import (
 // errClasses is the fixed keyword table that reduces a goyang error message to a class.
 // First match wins.  The Lean models produce the same class names directly.
 var errClasses = []struct{ needle, class string }{
+	// Modules.add: a module name with '@' (first: the quoted name may contain any other needle)
+	{"'@' separates name and revision", "bad-module-name"},
 	// wraps the inner resolution errors ("deviation has unresolvable type, [pos: unknown type …]")
 	{"unresolvable type", "deviate-bad-type"},
 	{"unknown type", "unknown-type"},
